@@ -640,4 +640,33 @@ example : Layout.Ref.layout [.addr 16, .const 10 [] 5, .emit 2 [11] [0x13, 0x00]
         .const 30 [20] 5, .label 31, .emit 1 [30] [0x06], .const 21 [31] 19, .const 11 [21] 19, .emit 2 [11] [0x13, 0x00]] =
       some [(20, 0x13), (21, 0x00), (19, 0x06), (18, 0x05), (16, 0x13), (17, 0x00)] := by rfl
 
+/-- the strong theorem applies to the three-file project: every statement genuine, `E` the layout core's own table -/
+example : ∃ o, run exXFs (bytesOf "m") = .done o ∧
+    ∃ (els : List Element) (p : List Layout.Stmt) (E : Layout.Env) (t : Table) (n : Nat),
+      XFlatS exNum2 exXFs encoder E 0 1 (bytesOf "m") t 2 none els p n ∧ Table.NoDef t := by
+  have hr := exXProject_run
+  cases hrun : run exXFs (bytesOf "m") with
+  | done o =>
+    rw [hrun] at hr
+    simp only [Bool.and_eq_true] at hr
+    obtain ⟨els, _, p, E, t, n, _, _, _, _, _, h3, h4, _⟩ :=
+      layout_refines_asm_scope_strong exNum2_inj exXFs (bytesOf "m") exXMain rfl exXProject_ok o hrun hr.1.1
+    exact ⟨o, rfl, els, p, E, t, n, h4, h3⟩
+  | noMain => rw [hrun] at hr; cases hr
+  | panic => rw [hrun] at hr; cases hr
+  | fuel => rw [hrun] at hr; cases hr
+  | loop => rw [hrun] at hr; cases hr
+
+/-- the auditor's input: a label at the cursor 2^32 (`NoLabelAtTop` fails, `Ref.pass1` is undefined), referenced from another
+region: the run succeeds (`x` = 0xFFFFFFFF, saturated) and the strong theorem still pins the symbol table -/
+def exTopText : Bytes := bytesOf ".addr 0xFFFFFFFF;\n.du8 0;\nx:\n.addr 0;\n.du32 x;\n"
+def exTopFs : Bytes → Option Bytes := fun p => if p = bytesOf "m" then some exTopText else none
+
+set_option maxRecDepth 100000 in
+example : XferProject exTopFs maxDepth [] (bytesOf "m") exTopText ∧
+    (match run exTopFs (bytesOf "m") with
+      | .done o => o.success && o.diags.isEmpty && o.image == [(0, [0xFF, 0xFF, 0xFF, 0xFF]), (0xFFFFFFFF, [0x00])]
+      | _ => false) = true :=
+  ⟨xferProject_of_B _ _ _ _ _ (by decide +kernel), by decide +kernel⟩
+
 end Trion.Asm
